@@ -406,7 +406,7 @@ func (v *vstore) advanceTime(d int64, refresh bool) {
 	}
 }
 
-func vstoreCase(tr *vtrace, r *vrng, doorkeeper, loading bool) {
+func vstoreCase(tr *vtrace, r *vrng, doorkeeper, loading, focus bool) {
 	var size int64
 	switch r.intn(8) {
 	case 0:
@@ -418,6 +418,9 @@ func vstoreCase(tr *vtrace, r *vrng, doorkeeper, loading bool) {
 	default:
 		size = int64(80 + r.intn(300))
 	}
+	if focus {
+		size = int64(60 + r.intn(200))
+	}
 	start := int64(r.next()%(1<<40)) + 1
 	v := newVStore(tr, size, doorkeeper, start)
 	defer v.s.Close()
@@ -428,6 +431,30 @@ func vstoreCase(tr *vtrace, r *vrng, doorkeeper, loading bool) {
 		nkeys = 60
 	}
 	key := func() int { return r.intn(nkeys) }
+	if focus {
+		// all keys live in one shard, so that shard-local mechanisms (doorkeeper growth at
+		// the 26th resident key, doorkeeper reset after >512 first sights) are reached
+		var pool []int
+		_, target := v.s.index(0)
+		for k := 0; len(pool) < 90; k++ {
+			if _, idx := v.s.index(k); idx == target {
+				pool = append(pool, k)
+			}
+		}
+		fresh := 1 << 20
+		key = func() int {
+			if doorkeeper && r.chance(12) {
+				// one-hit wonders that only ever meet the doorkeeper
+				for {
+					fresh++
+					if _, idx := v.s.index(fresh); idx == target {
+						return fresh
+					}
+				}
+			}
+			return pool[r.intn(len(pool))]
+		}
+	}
 	cost := func() int64 {
 		switch r.intn(10) {
 		case 0:
@@ -465,6 +492,9 @@ func vstoreCase(tr *vtrace, r *vrng, doorkeeper, loading bool) {
 	}
 	val := 0
 	nops := 30 + r.intn(vscale(250, 500))
+	if focus {
+		nops = 600 + r.intn(vscale(600, 2500))
+	}
 	for i := 0; i < nops; i++ {
 		if r.chance(25) {
 			switch r.intn(4) {
@@ -531,6 +561,6 @@ func TestVerifStore(t *testing.T) {
 	r := &vrng{s: vseed()*49979687 + 23}
 	n := vscale(300, 12000)
 	for c := 0; c < n; c++ {
-		vstoreCase(tr, r, c%4 == 1, c%4 >= 2)
+		vstoreCase(tr, r, c%4 == 1, c%4 >= 2, c%10 == 5 || c%10 == 8)
 	}
 }
